@@ -137,6 +137,36 @@ pub fn run_case(line: &str) -> String {
                 Err(_) => "PANIC(thread)".to_string(),
             }
         }
+        "hdr" => {
+            // encode_with_dist_header_multi on one or two terms, then the library's own reader on the result
+            let parts: Vec<&str> = rest.split(" | ").collect();
+            let terms: Vec<OwnedTerm> = parts.iter().map(|p| read_term(&mut Toks::new(p))).collect();
+            let refs: Vec<&OwnedTerm> = terms.iter().collect();
+            match erltf::encoder::encode_with_dist_header_multi(&refs) {
+                Err(e) => format!("enc=err:{}", ekind(&e)),
+                Ok(b) => {
+                    let mut cache = erltf::AtomCache::new();
+                    let selfdec = match erltf::decode_with_atom_cache(&b, &mut cache) {
+                        Ok((c, p)) => format!("{} | {}", term_str(&c), p.map(|x| term_str(&x)).unwrap_or_else(|| "-".to_string())),
+                        Err(e) => format!("err {}", dkind(&e)),
+                    };
+                    format!("enc={} ; self={}", hex(&b), selfdec)
+                }
+            }
+        }
+        "hdrdec" => {
+            // a history of messages decoded with one atom cache
+            let mut cache = erltf::AtomCache::new();
+            let mut out = Vec::new();
+            for h in rest.split(',') {
+                let data = unhex(h.trim());
+                out.push(match erltf::decode_with_atom_cache(&data, &mut cache) {
+                    Ok((c, p)) => format!("ok {} | {}", term_str(&c), p.map(|x| term_str(&x)).unwrap_or_else(|| "-".to_string())),
+                    Err(e) => format!("err {}", dkind(&e)),
+                });
+            }
+            out.join(" ;; ")
+        }
         "inflate" => {
             // the zlib oracle handed to the model: what flate2 makes of these bytes (plain bytes, consumed input)
             use std::io::Read;
